@@ -70,6 +70,53 @@ def attr(t):
     return "#[flat(%s)]" % ", ".join(a) if a else "#[flat]"
 
 
+def mident(t):
+    """Identifier the macro sees: generic definitions are emitted as `NameG<P0, ..>` plus `type Name = NameG<concrete, ..>`."""
+    return t["name"] + ("G" if t.get("gen") else "")
+
+
+def direct_fields(t):
+    return list(t["fields"]) + [f for v in t["vars"] for f in v]
+
+
+def gparams(t):
+    """Type parameters of a generic definition: the distinct sized types used as a field, an array element or a FlatVec element."""
+    ps = []
+    def add(f):
+        if is_sized(f) and f["k"] != "arr" and rust_type(f) not in ps:
+            ps.append(rust_type(f))
+    for f in direct_fields(t):
+        if f["k"] in ("arr", "vec"):
+            add(f["elem"][0])
+        else:
+            add(f)
+    return ps
+
+
+def gtype(f, t):
+    """Field type as written in the definition (type parameters substituted for a generic definition)."""
+    if not t.get("gen"):
+        return rust_type(f)
+    ps = gparams(t)
+    def sub(x):
+        return "P%d" % ps.index(rust_type(x)) if rust_type(x) in ps and x["k"] != "arr" else rust_type(x)
+    if f["k"] == "arr":
+        return "[%s; %d]" % (sub(f["elem"][0]), f["n"])
+    if f["k"] == "vec":
+        return "FlatVec<%s, %s>" % (sub(f["elem"][0]), rust_type(f["lt"][0]))
+    return sub(f)
+
+
+def gdecl(t):
+    """`<P0: Flat + .., ..>` of a generic definition, and the alias that instantiates it."""
+    if not t.get("gen"):
+        return "", []
+    ps = gparams(t)
+    b = "Flat" + (" + Default" if t["dflt"] > 0 else "") + (" + Portable" if t["portable"] else "")
+    decl = "<%s>" % ", ".join("P%d: %s" % (i, b) for i in range(len(ps)))
+    return decl, ["pub type %s = %s<%s>;" % (t["name"], mident(t), ", ".join(ps))]
+
+
 def shape(ty):
     return "<%s as Shape>" % ty
 
@@ -83,16 +130,19 @@ def gen_struct(t, out):
     out.append(attr(t))
     if t["sized"]:
         out.append("#[derive(Clone, Copy, PartialEq, Debug)]")
+    decl, alias = gdecl(t)
+    dtys = [gtype(f, t) for f in fs]
     if tuple_style:
-        out.append("pub struct %s(%s);" % (name, ", ".join("pub " + x for x in tys)))
+        out.append("pub struct %s%s(%s);" % (mident(t), decl, ", ".join("pub " + x for x in dtys)))
     else:
-        out.append("pub struct %s { %s }" % (name, ", ".join("pub f%d: %s" % (i, x) for i, x in enumerate(tys))))
+        out.append("pub struct %s%s { %s }" % (mident(t), decl, ", ".join("pub f%d: %s" % (i, x) for i, x in enumerate(dtys))))
+    out.extend(alias)
     out.append("impl Shape for %s {" % name)
     if t["sized"]:
         out.append("    sized_hooks!();")
         out.append("    fn apply_here(&mut self, op: &Value, fl: u32) -> Value { if op[\"op\"] == \"set\" { *self = Self::from_val(&op[\"v\"]); json!({\"ok\": true}) } else { self.apply_common(op, fl) } }")
     else:
-        init = name + "Init"
+        init = mident(t) + "Init"
         out.append("    type Emp<'a> = %s<%s>;" % (init, ", ".join("%s::Emp<'a>" % shape(x) for x in tys)))
         if tuple_style:
             body = "%s(%s)" % (init, ", ".join("%s::emp(&a[%d], fl)" % (shape(x), i) for i, x in enumerate(tys)))
@@ -117,9 +167,9 @@ def gen_struct(t, out):
     if t["sized"]:
         out.append("impl SizedShape for %s {" % name)
         if tuple_style:
-            body = "%s(%s)" % (name, ", ".join("%s::from_val(&a[%d])" % ("<%s as SizedShape>" % x, i) for i, x in enumerate(tys)))
+            body = "%s(%s)" % (mident(t), ", ".join("%s::from_val(&a[%d])" % ("<%s as SizedShape>" % x, i) for i, x in enumerate(tys)))
         else:
-            body = "%s { %s }" % (name, ", ".join("f%d: <%s as SizedShape>::from_val(&a[%d])" % (i, x, i) for i, x in enumerate(tys)))
+            body = "%s { %s }" % (mident(t), ", ".join("f%d: <%s as SizedShape>::from_val(&a[%d])" % (i, x, i) for i, x in enumerate(tys)))
         out.append("    fn from_val(v: &Value) -> Self { let a = arr(v); let _ = &a; %s }" % body)
         out.append("}")
     out.append("")
@@ -139,11 +189,12 @@ def gen_enum(t, out):
     out.append(attr(t))
     if t["sized"]:
         out.append("#[derive(Clone, Copy, PartialEq, Debug)]")
-    out.append("pub enum %s {" % name)
+    decl, alias = gdecl(t)
+    out.append("pub enum %s%s {" % (mident(t), decl))
     for i, v in enumerate(vs):
         d = "    #[default]\n" if t["dflt"] == i + 1 else ""
         st = variant_style(t, v)
-        tys = [rust_type(f) for f in v]
+        tys = [gtype(f, t) for f in v]
         if st == "unit":
             out.append("%s    V%d," % (d, i))
         elif st == "tuple":
@@ -151,6 +202,7 @@ def gen_enum(t, out):
         else:
             out.append("%s    V%d { %s }," % (d, i, ", ".join("f%d: %s" % (j, x) for j, x in enumerate(tys))))
     out.append("}")
+    out.extend(alias)
 
     def pat(prefix, i, v):
         st = variant_style(t, v)
@@ -166,7 +218,7 @@ def gen_enum(t, out):
         out.append("    sized_hooks!();")
         out.append("    fn apply_here(&mut self, op: &Value, fl: u32) -> Value { if op[\"op\"] == \"set\" { *self = Self::from_val(&op[\"v\"]); json!({\"ok\": true}) } else { self.apply_common(op, fl) } }")
     else:
-        init = name + "Init"
+        init = mident(t) + "Init"
         params = []
         for v in vs:
             for f in v:
@@ -189,18 +241,18 @@ def gen_enum(t, out):
             out.append("    fn rust_default() -> Option<Value> { Some(<Self as Default>::default().read(&mut Ctx::unbounded())) }")
     # read
     if sized:
-        scrut, prefix = "self", name
+        scrut, prefix = "self", mident(t)
     else:
-        scrut, prefix = "self.as_ref()", name + "Ref"
+        scrut, prefix = "self.as_ref()", mident(t) + "Ref"
     arms = []
     for i, v in enumerate(vs):
         arms.append("%s => json!({\"tag\": %d, \"fs\": [%s]})," % (pat(prefix, i, v), i + 1, ", ".join("f%d.read(c)" % j for j in range(len(v)))))
     out.append("    fn read(&self, c: &mut Ctx) -> Value { c.node(\"%s\", self); match %s { %s } }" % (name, scrut, " ".join(arms)))
     # apply_child
     if sized:
-        scrut, prefix = "self", name
+        scrut, prefix = "self", mident(t)
     else:
-        scrut, prefix = "self.as_mut()", name + "Mut"
+        scrut, prefix = "self.as_mut()", mident(t) + "Mut"
     arms = []
     for i, v in enumerate(vs):
         inner = " ".join("%d => f%d.apply(&path[1..], op, fl)," % (j, j) for j in range(len(v)))
@@ -208,9 +260,9 @@ def gen_enum(t, out):
     out.append("    fn apply_child(&mut self, path: &[usize], op: &Value, fl: u32) -> Value { let _ = (op, fl); match %s { %s } }" % (scrut, " ".join(arms)))
     # probe
     if sized:
-        scrut, prefix = "self", name
+        scrut, prefix = "self", mident(t)
     else:
-        scrut, prefix = "self.as_ref()", name + "Ref"
+        scrut, prefix = "self.as_ref()", mident(t) + "Ref"
     arms = []
     for i, v in enumerate(vs):
         arms.append("%s => json!({\"tag\": %d, \"offs\": [%s], \"subs\": [%s]})," % (
@@ -236,11 +288,11 @@ def gen_enum(t, out):
             st = variant_style(t, v)
             es = ["<%s as SizedShape>::from_val(&a[%d])" % (rust_type(f), j) for j, f in enumerate(v)]
             if st == "unit":
-                arms.append("%d => %s::V%d," % (i + 1, name, i))
+                arms.append("%d => %s::V%d," % (i + 1, mident(t), i))
             elif st == "tuple":
-                arms.append("%d => %s::V%d(%s)," % (i + 1, name, i, ", ".join(es)))
+                arms.append("%d => %s::V%d(%s)," % (i + 1, mident(t), i, ", ".join(es)))
             else:
-                arms.append("%d => %s::V%d { %s }," % (i + 1, name, i, ", ".join("f%d: %s" % (j, e) for j, e in enumerate(es))))
+                arms.append("%d => %s::V%d { %s }," % (i + 1, mident(t), i, ", ".join("f%d: %s" % (j, e) for j, e in enumerate(es))))
         out.append("    fn from_val(v: &Value) -> Self { let a = arr(&v[\"fs\"]); let _ = &a; match v[\"tag\"].as_u64().unwrap_or(0) { %s _ => panic!(\"bad tag in case\") } }" % " ".join(arms))
         out.append("}")
     out.append("")
@@ -295,7 +347,7 @@ def main():
         "#![allow(non_camel_case_types, dead_code, unused_variables, clippy::all)]",
         "use crate::shape::*;",
         "use crate::{default_hooks, sized_hooks};",
-        "use flatty::{flat, portable::{be, le, Bool}, FlatString, FlatVec, FlexVec};",
+        "use flatty::{flat, traits::Flat, Portable, portable::{be, le, Bool}, FlatString, FlatVec, FlexVec};",
         "use serde_json::{json, Value};",
         "",
     ]
